@@ -114,6 +114,9 @@ impl Callback for UnspentCsvDump {
             )?;
         }
 
+        // Make sure everything is on disk before the file gets its final name
+        self.writer.flush()?;
+
         #[cfg(rbp_verif)]
         crate::verif::ev("rename", &format!("\"file\":\"unspent.csv.tmp\",\"to\":\"unspent-{}-{}.csv\",\"buffered\":{}", self.start_height, block_height, self.writer.buffer().len()));
         fs::rename(
